@@ -18,7 +18,7 @@ func init() {
 			"only leads to returns of ErrClosed. Excepted: ExecuteBatch's empty-batch return (the property says non-empty). Snapshot's cached return is admitted because (CL-1b) Close performs " +
 			"close(stopCh) and invalidateLatestSnapshotLOCKED() in one critical section and a non-nil latestSnapshot is only stored behind newSnapshotLOCKED's nil-error edge.",
 		Props:      []string{"C16"},
-		Floor: 6,
+		Floor:      6,
 		Run:        ruleCL1,
 		Exceptions: []string{"(*collection).ExecuteBatch: return on the `b == nil || b.isEmpty()` edge – an empty batch changes nothing and the property only speaks of non-empty batches"},
 	})
@@ -49,7 +49,7 @@ func init() {
 		Doc: "Cancellable blocking: every channel send / receive in a method of collection (closures included) is either a select that also offers `<-m.stopCh` or has a default, or one of the " +
 			"table of proven-ready operations (Close's waits for doneMergerCh / donePersisterCh, whose senders are stop-driven).",
 		Props:      []string{"C16"},
-		Floor: 3,
+		Floor:      3,
 		Run:        ruleCL5,
 		Exceptions: []string{"(*collection).Close: <-m.doneMergerCh and <-m.donePersisterCh – both goroutines exit once stopCh is closed (CL-6)"},
 	})
